@@ -18,6 +18,12 @@ def fast_choice(options, probs, rng=None):
         cum += p
         if x < cum:
             return options[i]
+    # The floating-point sum of the probabilities can fall just short of 1:
+    # a variate above it belongs to the last option that can occur at all,
+    # never to an option of probability zero.
+    for i in reversed(range(len(probs))):
+        if probs[i] > 0:
+            return options[i]
     return options[-1]
 
 
